@@ -135,7 +135,9 @@ def run_case(case):
                     ev["ret"] = []; ev["rett"] = []; ev["viol"] = -1; ev["same"] = True
                     r = spec.evaluate(data)
                     ev["ret"] = [enc(p[1], S) for p in r]
-                    ev["rett"] = [enc(p[0], tS) for p in r]
+                    # time-stamps are echoed objects: encode each returned stamp by the input stamp it equals
+                    tin = keep["time"]
+                    ev["rett"] = [ev["ts"][i] if i < len(tin) and p[0] == tin[i] else enc(p[0], tS) for i, p in enumerate(r)]
                     ev["same"] = (data == keep)
                     c = spec.sampling_violation_counter
                     ev["viol"] = c if isinstance(c, int) else -1
